@@ -15,8 +15,8 @@ import time
 from .. import core, gen, obs
 
 NEED_CLI = True
-RKINDS = ["passing", "failing", "skipping", "broken", "empty", "comment", "evalerr"]
-DKINDS = ["compliant", "noncompliant", "malformed", "emptyfile", "nonmap"]
+RKINDS = ["passing", "failing", "skipping", "conditional", "broken", "empty", "comment", "evalerr"]
+DKINDS = ["compliant", "noncompliant", "irrelevant", "malformed", "emptyfile", "nonmap"]
 # every candidate is also rejected by an independent YAML parser (PyYAML) - checked at import time
 MALFORMED = ['{"a": [1, 2', "a: [1, 2\nb: }\n", "key: : :\n  - x: [\n", '{"a" 1}', "a: 'unterminated\n", "- a\nb: 1\n", "a:\n\t- 1\n  b: [\n"]
 
@@ -49,6 +49,8 @@ def instance(rng):
         "passing": 'rule p%d {\n    b == "x"\n    l[*] >= 1\n}\n',
         "failing": "rule f%%d {\n    %s == %d\n}\n" % (ka, good),
         "skipping": "rule s%%d when zz exists {\n    %s == %d\n}\n" % (ka, good),
+        # PASS / FAIL / SKIP depending on the data file: applies only to documents that have the key at all
+        "conditional": "rule c%%d when %s exists {\n    %s == %d\n}\n" % (ka, ka, good),
         "broken": rng.choice(["rule b%d { a == }\n", "rule { a == 1 }\n", "rule b%d { a == 1\n", "let x\nrule b%d { a == 1 }\n",
                               "rule b%d when { a == 1 }\n", "rule b%d { a == 1 } }\n", "rule b%d { a === 1 }\n"]),
         "empty": "",
@@ -56,7 +58,7 @@ def instance(rng):
         "evalerr": "rule e%%d {\n    %s empty\n}\n" % ka,
     }
     data = {
-        "compliant": ser(comp), "noncompliant": ser(nonc),
+        "compliant": ser(comp), "noncompliant": ser(nonc), "irrelevant": ser({"b": "x", "l": [1, 2], "other": True}),
         "malformed": (rng.choice(MALFORMED), rng.choice([".json", ".yaml"])),
         "emptyfile": (rng.choice(["", "   \n"]), rng.choice([".json", ".yaml"])),
         "nonmap": (rng.choice(["5", "[1, 2]", '"str"']), ".json"),
@@ -172,7 +174,9 @@ def shard(ctx):
     # exhaustive over single/pair tuples in thorough; quick: every (rules kind, position) x (data kind, position) appears, sampled combos
     small = [c for c in combos if len(c[0]) <= 2 and len(c[1]) <= 2]
     big = [c for c in combos if not (len(c[0]) <= 2 and len(c[1]) <= 2)]
-    chosen = (small[:260] + big[:220]) if ctx.quick else (small + big[:6000])
+    one_rules_file = [c for c in small if len(c[0]) == 1]         # every single rules file x every ordered pair of data kinds: always run
+    rest_small = [c for c in small if len(c[0]) != 1]
+    chosen = (one_rules_file + rest_small[:160] + big[:160]) if ctx.quick else (small + big[:6000])
     try:
         for idx, (rk, dk) in enumerate(chosen):
             if not ctx.mine(idx):
@@ -202,6 +206,12 @@ def shard(ctx):
                 argv, stdin = av
                 code, out, err = core.run_cli(argv, stdin=stdin.encode() if stdin is not None else None, timeout=60)
                 ctx.res.cases += 1
+                if mode in ("plain", "verbose", "dirs", "payload") and idx % 3 == 0:
+                    code2, _o2, _e2 = core.run_cli(argv, stdin=stdin.encode() if stdin is not None else None, timeout=60, env=dict(os.environ, CLICOLOR_FORCE="1", TERM="xterm-256color"))
+                    ctx.res.counts["validate_runs_with_colour_forced"] += 1
+                    if code2 != code and code is not None and code2 is not None:
+                        ctx.violation("validate:exit-depends-on-colour-settings:%s" % mode, "validate exits %s by default and %s with CLICOLOR_FORCE=1" % (code, code2),
+                                      {"kind": "validate", "mode": mode, "rules": rtexts, "data": dtexts, "exts": dexts, "rkinds": list(rk), "dkinds": list(dk), "expected": exp})
                 m = matches(exp, code)
                 ctx.res.extra.setdefault("exit_class_x_mode", set()).add("%s:%s" % (exp, mode))
                 case = {"kind": "validate", "mode": mode, "rules": rtexts, "data": dtexts, "exts": dexts, "rkinds": list(rk), "dkinds": list(dk), "expected": exp}
@@ -321,6 +331,13 @@ def shard(ctx):
                         argv += ["-o", fmt]
                     code, out, err = core.run_cli(argv)
                     ctx.res.cases += 1
+                    # the exit code does not depend on how the terminal is described: colour forced on / off gives the same code
+                    cenv = dict(os.environ, **rng.choice([{"CLICOLOR_FORCE": "1", "TERM": "xterm-256color"}, {"NO_COLOR": "1"}, {"CLICOLOR": "0", "COLUMNS": "20"}]))
+                    code2, _o2, _e2 = core.run_cli(argv, env=cenv)
+                    ctx.res.counts["test_runs_with_colour_settings"] += 1
+                    if code2 != code and code is not None and code2 is not None:
+                        ctx.violation("test:exit-depends-on-colour-settings:%s" % fmt, "test exits %s by default and %s with %s" % (code, code2, {k: cenv[k] for k in ("CLICOLOR_FORCE", "NO_COLOR", "CLICOLOR") if k in cenv}),
+                                      {"kind": "test", "argv_tail": argv[1:], "rules": rtext, "tests": ttext, "scenario": scen, "fmt": fmt, "layout": layout, "expected": exp})
                     m = matches(exp, code)
                     ctx.res.extra.setdefault("exit_class_x_mode", set()).add("test:%s:%s:%s" % (exp, fmt, layout))
                     case = {"kind": "test", "argv_tail": argv[1:], "rules": rtext, "tests": ttext, "scenario": scen, "fmt": fmt, "layout": layout, "expected": exp}
